@@ -44,6 +44,8 @@
 //!                        waited for)
 //!   tsn SIG N            the same without `( exit 0 )`: signal and SIGCHLD always arrive in ONE wake-up
 //!   tsr SIG N R          as `ts`, the trap action being `echo trapsig; st R`: its own status must not become that of `wait`
+//!   tsq SIG N Q          as `ts`, the action being `probe …` after `st Q`: `$?` inside the action is Q (the value before the trap)
+//!   tsf SIG N R          as `ts`, `wait` running inside a function and the action being `return R`: the function returns R
 //!   tsa SIG N            as `ts` with a `wait` WITHOUT operands (generated only while no other job is open)
 //!   ts2 SIG1 SIG2 N      the job sends SIG1, then SIG2 (both trapped): `wait` = 384+SIG1, trap of SIG1 first, that of SIG2
 //!                        after the built-in
@@ -846,6 +848,28 @@ fn render_stmt(t: &str, nasync: &mut usize) -> Option<String> {
                 *nasync
             )
         }
+        ["tsq", sig, n, q] if SIGNALS.contains(sig) => {
+            // `$?` inside the action: the value before the trap (`st Q` runs without a fork, the shell does not yield)
+            *nasync += 1;
+            format!(
+                "trap 'probe \"$!\" \"$x\"; st 9' {sig}\n( kill -s {sig} $$; ( exit 0 ); exit {} ) & j{}=$!\nst {}\nwait $j{}",
+                num(n)?,
+                *nasync,
+                q.parse::<u32>().ok().filter(|q| *q < 256)?,
+                *nasync
+            )
+        }
+        ["tsf", sig, n, r] if SIGNALS.contains(sig) => {
+            // `return R` in the action while `wait` runs inside a function: the function returns R at once
+            *nasync += 1;
+            format!(
+                "f() {{ wait $j{}; st 99; }}\ntrap 'return {}' {sig}\n( kill -s {sig} $$; ( exit 0 ); exit {} ) & j{}=$!\nf",
+                *nasync,
+                r.parse::<u32>().ok().filter(|r| *r < 256)?,
+                num(n)?,
+                *nasync
+            )
+        }
         ["tsa", sig, n] if SIGNALS.contains(sig) => {
             *nasync += 1;
             format!(
@@ -1161,6 +1185,8 @@ struct GJob {
     dead: bool,    // killed by a signal of the script (its cause of death must stand)
     doomed: bool,  // sent a signal its parent traps: the signal may still be pending (blocked) until the child's
                    // entry step; until virtual time has passed another signal could become the cause of death
+    helper: bool,  // a job with naps of its own (`tw`, `sc`): never "certainly exited" (its last nap may end in the very
+                   // instant a later statement is woken — whether it is reaped by then depends on the schedule)
     exited: bool,  // not a napping job, and virtual time has passed since it started: it has certainly exited
 }
 
@@ -1180,14 +1206,14 @@ fn gen_jobs_program(r: &mut Rng, thorough: bool) -> String {
     // step, so such a signal sent to it may stay pending — the job is `doomed`, not yet certainly `dead`
     let mut trapped: Vec<&str> = vec![];
     let new_job = |jobs: &mut Vec<GJob>, epoch: &mut Vec<usize>, kind: JKind, monitor: bool| {
-        jobs.push(GJob { kind, open: true, fresh: kind == JKind::Nap, stopped: false, igniq: !monitor, dead: false, doomed: false, exited: false });
+        jobs.push(GJob { kind, open: true, fresh: kind == JKind::Nap, stopped: false, igniq: !monitor, dead: false, doomed: false, helper: false, exited: false });
         epoch.push(jobs.len());
     };
     if r.chance(1, 4) {
         // jobs 1 (waited for inside) and 2 (the helper, left open)
         stmts.push(format!("{} {}", if r.chance(1, 2) { "sc" } else { "scp" }, r.pick(&STATUSES)));
-        jobs.push(GJob { kind: JKind::St, open: false, fresh: false, stopped: false, igniq: true, dead: false, doomed: false, exited: true });
-        jobs.push(GJob { kind: JKind::Other, open: true, fresh: false, stopped: false, igniq: true, dead: false, doomed: false, exited: false });
+        jobs.push(GJob { kind: JKind::St, open: false, fresh: false, stopped: false, igniq: true, dead: false, doomed: false, helper: false, exited: true });
+        jobs.push(GJob { kind: JKind::Other, open: true, fresh: false, stopped: false, igniq: true, dead: false, doomed: false, helper: true, exited: false });
         epoch = vec![2];
         clean = true; // the table was emptied by `wait $!` before the helper was inserted
     }
@@ -1252,10 +1278,11 @@ fn gen_jobs_program(r: &mut Rng, thorough: bool) -> String {
                 for j in jobs.iter_mut() {
                     j.fresh = j.fresh && j.stopped; // time passes (a stopped job cannot finish)
                     // … only once every other process is blocked: what does not sleep has exited by then
-                    j.exited = j.exited || (j.kind != JKind::Nap && !j.dead);
+                    j.exited = j.exited || (j.kind != JKind::Nap && !j.dead && !j.helper);
                     j.dead = j.dead || j.doomed;
                 }
                 new_job(&mut jobs, &mut epoch, JKind::Other, monitor);
+                jobs.last_mut().unwrap().helper = true;
                 let sig = *r.pick(&["USR1", "INT", "TERM", "HUP"]);
                 trapped.push(sig);
                 format!("tw {sig} {st}")
@@ -1552,6 +1579,8 @@ fn gen_program(r: &mut Rng, thorough: bool) -> String {
                     let alone = open.len() == 1; // no other job is open
                     let v = match r.below(10) {
                         0 => format!("tsr {sig} {st} {}", r.pick(&FLOW_STATUSES)),
+                        7 => format!("tsq {sig} {st} {}", r.pick(&FLOW_STATUSES)),
+                        8 => format!("tsf {sig} {st} {}", r.pick(&FLOW_STATUSES)),
                         1 => {
                             let other = *r.pick(&["USR1", "USR2", "TERM", "HUP"]);
                             if other == sig { format!("ts {sig} {st}") } else { format!("ts2 {sig} {other} {st}") }
@@ -1590,7 +1619,9 @@ fn gen_program(r: &mut Rng, thorough: bool) -> String {
     stmts.join("; ")
 }
 
-const FIXED_PROGRAMS: [&str; 64] = [
+const FIXED_PROGRAMS: [&str; 66] = [
+    "tsq USR1 3 5; wj 1; w",
+    "bg s2; tsf TERM 4 6; tsq HUP 0 7; wj 3 2 1; w",
     "bg s3; gl; g 4; gl; p s1 s2; gl; wj 1; gl; w",
     "bg s1 s2; gl; bg g7; gl; wj 2 1; gl; w",
     "fp s5 w3000 c t10.7; fp w2500 t1.3 w1025 d",
